@@ -173,7 +173,7 @@ func (r *Router[T]) URL(strict bool, pattern string, params map[string]string) (
 
 	switch {
 	case len(pattern) == 0: // 无需要处理
-	case len(params) == 0:
+	case len(params) == 0 && !strict:
 		buf.WString(pattern)
 	case strict:
 		if err := r.tree.URL(&buf, pattern, params); err != nil {
